@@ -205,6 +205,18 @@ theorem C12_int_out_of_range_rejected :
     castTo .i32 (2 ^ 31) = -(2 ^ 31) := by
   constructor <;> decide
 
+/-- Enum fields: the compiler rejects (error, never panic) exactly the declarations `WFRules`
+excludes — a name under `in` / `notIn`, or (since b6c593a) a default filter of the list rules,
+that is not an option of the enum, written with or without the prefix. -/
+theorem C12_enum_rejected_iff_inadmissible (d : EnumDecl) (rules : Option EnumRules) (lr : ListRules) :
+    (buildField (.enum d rules lr)).isErr = !schemaWF (.enum d rules lr) :=
+  buildField_enum_isErr d rules lr
+
+/-- a default filter which is not an option: compile error -/
+example : (compileRules { name := "e", number := 2,
+    schema := .single (.enum { name := "En", defaultPrefix := "EN_", options := ["A", "B"] } none
+      (some { text := "f1/df43/s0/ds0/q0/qi-", defaultFilters := ["C"] })) }).isErr = true := by decide
+
 /-- Reversed bounds: protovalidate reads `gte: 10, lte: 5` as "outside (5, 10)" and accepts 20,
 which no value of a minimum-10 / maximum-5 declaration can satisfy. (An empty range is not an
 admissible declaration; the compiler accepts it silently.) -/
@@ -271,6 +283,13 @@ example : WFRules {
     name := "e", number := 2,
     schema := .single (.enum { name := "En", defaultPrefix := "EN_", options := ["A", "B", "C"] }
                 (some { inn := ["A", "EN_B"], notIn := ["C"] }) none) } = true := by
+  decide
+
+example : WFRules {
+    name := "e", number := 2,
+    schema := .single (.enum { name := "En", defaultPrefix := "EN_", options := ["A", "B", "C"] }
+                (some { notIn := ["C"] })
+                (some { text := "f1/df41+454e5f42/s0/ds0/q0/qi-", defaultFilters := ["A", "EN_B"] })) } = true := by
   decide
 
 example : WFRules {
